@@ -90,8 +90,12 @@ fn candidates(i: &Inner, only_objs: Option<&[u8]>, dormant_pool_threads: usize, 
         if pool_task(t) {
             return false;
         }
+        // (... and it is still in the very wait during which it polled the operation: an operation it polled by hand earlier was
+        // given another waker, and waking that one does not resume the caller's present wait)
+        let seq = if o.last_poll_task != usize::MAX { o.last_poll_stage_seq } else { 0 };
         i.callers.iter().any(|c| {
             c.task == t
+                && (seq == 0 || c.stage_seq == seq)
                 && match c.stage {
                     Stage::Awaiting(f) | Stage::SyncWaiting(f) => i.ops[f].obj == o.obj,
                     Stage::InCall(s2) => i.ops[s2].kind == Kind::Sync && i.ops[s2].obj == o.obj,
